@@ -579,12 +579,22 @@ pub fn check_tasks(prog: &NetProgram, res: &NetResult, prop: &str, info: &mut Ru
         let mut expect: Vec<(u16, u64, Expect)> = Vec::new();
         for (inc, s0, end) in &incs {
             let mut ext: Vec<(u64, usize)> = Vec::new();
+            // notifications issued by the very event that requests the shutdown ending this incarnation
+            let mut ext_last: Vec<(u64, usize)> = Vec::new();
             let mut add = |t0: u64, site: usize, acts: &[crate::net::Act]| {
+                let shuts = acts.iter().any(|a| matches!(a, crate::net::Act::Shutdown { .. }));
                 for (ai, a) in acts.iter().enumerate() {
-                    match a {
-                        crate::net::Act::NotifyTask { to } => ext.push((t0, *to as usize)),
-                        crate::net::Act::SelfMsg { delay_ns } if has_notify_pe => ext.push((t0 + delay_ns, crate::net::uid_of(m, site, ai, *inc) as usize)),
-                        _ => {}
+                    let e = match a {
+                        crate::net::Act::NotifyTask { to } => Some((t0, *to as usize)),
+                        crate::net::Act::SelfMsg { delay_ns } if has_notify_pe => Some((t0 + delay_ns, crate::net::uid_of(m, site, ai, *inc) as usize)),
+                        _ => None,
+                    };
+                    if let Some(e) = e {
+                        if shuts && t0 == *end && e.0 == t0 && matches!(a, crate::net::Act::NotifyTask { .. }) {
+                            ext_last.push(e);
+                        } else {
+                            ext.push(e);
+                        }
                     }
                 }
             };
@@ -592,9 +602,22 @@ pub fn check_tasks(prog: &NetProgram, res: &NetResult, prop: &str, info: &mut Ru
             for (bi, b) in spec.beats.iter().enumerate() {
                 add(s0 + b.at_ns, bi, &b.acts);
             }
-            for e in evaluate(&spec.tasks, *s0, &ext) {
+            // what runs strictly before the shutdown instant must be there; at the instant itself only what the requesting
+            // event enabled (a shutdown takes effect at the end of that event; timers due at the same instant are separate
+            // events whose order against it is not ranked)
+            let without: Vec<Expect> = evaluate(&spec.tasks, *s0, &ext);
+            let mut all_ext = ext.clone();
+            all_ext.extend(ext_last.iter().copied());
+            let with: Vec<Expect> = if ext_last.is_empty() { Vec::new() } else { evaluate(&spec.tasks, *s0, &all_ext) };
+            for e in &without {
                 if e.time < *end {
-                    expect.push((*inc, *end, e));
+                    expect.push((*inc, *end, e.clone()));
+                }
+            }
+            for e in &with {
+                if e.time == *end && !without.iter().any(|w| w.task == e.task && w.step == e.step && w.time == e.time) {
+                    info.probe("task_enabled_by_the_event_that_requests_shutdown");
+                    expect.push((*inc, *end, e.clone()));
                 }
             }
         }
@@ -805,6 +828,12 @@ pub fn gen_c06(rng: &mut Rng, tier: Tier) -> NetProgram {
             }
             if rng.chance(1, 3) {
                 spec.start_acts = vec![crate::net::Act::NotifyTask { to: 0 }];
+            }
+            // the handler that wakes the tasks also requests a shutdown: the woken tasks still run in that event
+            if !via_pe && !big && rng.chance(1, 4) {
+                if let Some(b) = spec.beats.last_mut() {
+                    b.acts.push(crate::net::Act::Shutdown { restart: if rng.chance(1, 2) { -1 } else { (rng.below(3) * 100 * MS) as i64 }, at: false });
+                }
             }
         }
         0 => {
